@@ -301,11 +301,13 @@ _STRUCT_CODES = {"B": (1, False), "H": (2, False), "I": (4, False), "L": (4, Fal
 
 
 def _struct_fmt(fmt):
-    order = "little"
+    import sys as _sys
+    order = _sys.byteorder          # no prefix / '@' / '=': native order (single items: no padding involved)
     if fmt and fmt[0] in "<>!=@":
-        order = "big" if fmt[0] in ">!" else "little"
-        if fmt[0] in "=@":
-            raise Undecided("native struct byte order")
+        if fmt[0] in ">!":
+            order = "big"
+        elif fmt[0] == "<":
+            order = "little"
         fmt = fmt[1:]
     codes = []
     for ch in fmt:
